@@ -31,6 +31,10 @@ class ScriptError(Exception):
     pass
 
 
+class ScriptAttrError(AttributeError):
+    """a scripted failure of a lifecycle context that is an AttributeError (e.g. self.conn.close() with conn None)"""
+
+
 DEFAULT_STEP = {"es": [], "out": ["r", "true"]}
 RET = {"none": None, "false": False, "true": True}
 
@@ -124,9 +128,15 @@ def _build(ctx, i):
     script = d["script"]
     hookraise = d.get("hookraise")      # one of clean/cease/abort/exit: that context raises after being logged
 
+    hookexc = d.get("hookexc", "script")
+
     def hook(name):
         ctx.ev(name.capitalize(), i)
         if hookraise == name:
+            if hookexc == "kbd":
+                raise KeyboardInterrupt()
+            if hookexc == "attr":
+                raise ScriptAttrError(i)
             raise ScriptError(i)
     if kind == "doer":
         class PlainDoer(doing.Doer):
@@ -291,7 +301,7 @@ def run_prog(prog):
                 doist.do(**kw)
             ctx.log.append(("DoReturn", 0, doist.tyme))
             raised = "none"
-        except ScriptError:
+        except (ScriptError, ScriptAttrError):
             raised = "script"
             ctx.log.append(("DoRaise", 0, doist.tyme))
         except KeyboardInterrupt:
@@ -310,7 +320,7 @@ def run_prog(prog):
             doist.do(doers=doers)
             ctx.log.append(("DoReturn", 0, doist.tyme))
             raised = "none"
-        except ScriptError:
+        except (ScriptError, ScriptAttrError):
             raised = "script"
             ctx.log.append(("DoRaise", 0, doist.tyme))
         except KeyboardInterrupt:
@@ -465,7 +475,8 @@ def nest_ids(prog):
 
 
 def has_kbd(prog):
-    return any(st["out"][0] == "k" for d in prog["defs"].values() if d["kind"] != "nest" for st in d["script"])
+    return (any(st["out"][0] == "k" for d in prog["defs"].values() if d["kind"] != "nest" for st in d["script"])
+            or any(d.get("hookraise") and d.get("hookexc") == "kbd" for d in prog["defs"].values()))
 
 
 # ----------------------------------------------------------------------------- generators
@@ -877,6 +888,7 @@ def gen_hookraise(rng, n):
         i = rng.choice(leaves)
         d = p["defs"][str(i)]
         d["hookraise"] = which
+        d["hookexc"] = rng.choice(["script", "script", "kbd", "attr"])
         longest = max(len(p["defs"][str(j)]["script"]) for j in leaves)
         if which == "cease":
             # force-closed by the limit while others are alive
